@@ -97,7 +97,8 @@ def represent(A, rep):
 
 def run_job(job):
     bct = import_bct()
-    A = job['A']; n = len(A); scale = job.get('scale', 1)
+    A = [[float(x) if isinstance(x, str) else x for x in r] for r in job['A']]     # special values travel as strings ('inf', '-0.0', '5e-324')
+    n = len(A); scale = job.get('scale', 1)
     out = {'viol': [], 'lines': [], 'n': n, 'status': {}, 'nontrivial': None, 'evals': 0, 'timeouts': [], 'dist': {}}
 
     def st(s):
@@ -110,8 +111,15 @@ def run_job(job):
         return run_probe(job, bct, out, viol)
     rep = job.get('rep')
     Af = represent(A, rep)
-    Aint = [[int(round(x * scale)) for x in r] for r in A]       # what the Lean model sees (scale keeps zero/nonzero and equality)
-    assert all(abs(x * scale - round(x * scale)) == 0 for x in flat(A))
+    if job.get('encode') == 'rank':
+        # special values (inf, 1e-300, denormals, -0.0 ...): the Int model sees the signed rank of each distinct non-zero value,
+        # which keeps exactly what the routine may depend on: zero / non-zero (-0.0 is zero) and equality of A[i,j] and A[j,i]
+        vals = sorted({abs(x) for x in flat(A) if x != 0})
+        rk = {v: i + 1 for i, v in enumerate(vals)}
+        Aint = [[0 if x == 0 else (rk[abs(x)] if x > 0 else -rk[abs(x)]) for x in r] for r in A]
+    else:
+        Aint = [[int(round(x * scale)) for x in r] for r in A]       # what the Lean model sees (scale keeps zero/nonzero and equality)
+        assert all(abs(x * scale - round(x * scale)) == 0 for x in flat(A))
     sym = all(A[i][j] == A[j][i] for i in range(n) for j in range(n))
     A0 = Af.copy()
     r = wcall(bct.get_components, Af)
@@ -136,7 +144,8 @@ def run_job(job):
     comps, sizes = r[1]
     comps = [int(x) for x in np.asarray(comps).ravel()]
     sizes = [int(x) for x in np.asarray(sizes).ravel()]
-    out['lines'].append((line, 'comps=%s sizes=%s' % (ints(comps), ints(sizes)), 'get_components'))
+    if not job.get('nolean'):     # (K257: 66 000 scanned cells cost the interpreted model ~10 s; judged by the oracle only)
+        out['lines'].append((line, 'comps=%s sizes=%s' % (ints(comps), ints(sizes)), 'get_components'))
     r3 = wcall(bct.get_components, represent(A, rep), no_depend=True)      # the routine's only option (documented as ignored)
     if r3[0] == 'ok' and not same_result(r3[1], r[1]):
         viol('get_components', 'option-no_depend-ignored', str(r3[1])[:200], str(r[1])[:200])
@@ -145,7 +154,8 @@ def run_job(job):
     if r2[0] == 'exc':
         viol('number_of_components', 'raises', r2[1], None)
     else:
-        out['lines'].append((line2, 'm=%d' % int(r2[1]), 'number_of_components'))
+        if n <= 130:      # (beyond, the model would only repeat the get_components computation; the count is judged below)
+            out['lines'].append((line2, 'm=%d' % int(r2[1]), 'number_of_components'))
     cls = uf_classes(A)
     m_true = len(set(cls))
     out['dist']['m=%d' % min(m_true, 6)] = 1
@@ -392,10 +402,78 @@ def gen_jobs(rs, tier):
         else:
             A[i][j] = 0; A[j][i] = float(rs.choice([2.0 ** -34, 2.0 ** -28]))
         jobs.append({'A': A, 'fam': 'asymmetric', 'dist': False, 'scale': 2 ** 40 if kind >= 3 else 1})
+    # --- special-value weights: "connection" = non-zero entry (inf, -inf, 1e-8, 9e-9, 1e-300, denormals, huge, negative; -0.0 is no edge)
+    SPECIAL = ['inf', '-inf', '1e-08', '9e-09', '-1e-09', '1e-300', '5e-324', '-5e-324', '1e+308', '-3.0', '2.5', '1e-07']
+    for q in range(1500 if th else 260):
+        n = int(rs.randint(4, 13)) if q % 9 else int(rs.choice([20, 30, 41]))
+        shape = q % 4
+        if shape == 0:
+            A = forest(rs, n, int(rs.randint(1, 4)))                 # every edge is a bridge
+        elif shape == 1:                                             # two cliques joined by a single bridge
+            h = n // 2
+            A = [[int(i != j and ((i < h) == (j < h))) for j in range(n)] for i in range(n)]
+            a, b = int(rs.randint(0, h)), int(rs.randint(h, n)); A[a][b] = A[b][a] = 1
+            if rs.rand() < .5:
+                A = perm_graph(rs, A)
+        elif shape == 2:
+            A = late_merge(rs, n)
+        else:
+            A = rand_sparse(rs, n, 1.6 / n)
+        B = [['0.0'] * n for _ in range(n)]
+        bridge_special = rs.rand() < .8
+        for i in range(n):
+            for j in range(i + 1, n):
+                if A[i][j]:
+                    w = SPECIAL[int(rs.randint(len(SPECIAL)))] if (bridge_special and rs.rand() < (.9 if shape in (0, 1) else .5)) else '1.0'
+                    B[i][j] = B[j][i] = w
+                elif rs.rand() < .15:
+                    B[i][j] = B[j][i] = '-0.0'                      # minus zero is still "no connection"
+        if rs.rand() < .3:
+            for i in range(n):
+                if rs.rand() < .4:
+                    B[i][i] = SPECIAL[int(rs.randint(len(SPECIAL)))]
+        jobs.append({'A': B, 'fam': 'special-weights', 'encode': 'rank', 'dist': n <= 12})
+    for q in range(120 if th else 30):                               # malformed: asymmetric only through a special value
+        n = int(rs.randint(2, 8))
+        A = rand_sparse(rs, n, .4)
+        B = [[repr(float(x)) for x in r] for r in A]
+        i, j = [int(x) for x in rs.choice(n, size=2, replace=False)]
+        B[i][j], B[j][i] = [('inf', '-inf'), ('1e-300', '0.0'), ('5e-324', '-0.0'), ('inf', '1e+308'), ('1e-08', '9e-09'), ('-1e-09', '0.0')][q % 6]
+        jobs.append({'A': B, 'fam': 'asymmetric-special', 'encode': 'rank', 'dist': False})
+    # --- size axis (also in quick): n just above powers of two, chains longer than 2^floor(log2 n), degree >= 256
+    def chain_graph(n, L, order):
+        A = [[0] * n for _ in range(n)]
+        for t in range(L - 1):
+            A[order[t]][order[t + 1]] = A[order[t + 1]][order[t]] = 1
+        return A
+    sizes = [33, 34, 40, 65, 66, 100, 129, 130, 257] if th else [33, 34, 40, 65, 66, 100, 129, 130, 257]
+    for n in sizes:
+        threads = [('identity', list(range(n))), ('reversed', list(range(n - 1, -1, -1))),
+                   ('low-node-in-the-middle', list(range(n // 2, n)) [::-1] + list(range(n // 2))[::-1][::-1]),
+                   ('shuffled', [int(x) for x in rs.permutation(n)])]
+        for name, order in threads[:(4 if n <= 130 else 2)]:
+            L = n if name != 'shuffled' else n - int(rs.randint(0, 4))
+            A = chain_graph(n, L, order)
+            jobs.append({'A': A, 'fam': 'size:chain', 'dist': n <= 100})
+        if n <= 130:
+            A = chain_graph(n, n - 4, [int(x) for x in rs.permutation(n)])          # a long chain plus a short one and isolated nodes
+            o = [v for v in range(n) if not any(A[v])]
+            if len(o) >= 3:
+                A[o[0]][o[1]] = A[o[1]][o[0]] = 1
+            jobs.append({'A': A, 'fam': 'size:chain', 'dist': n <= 100})
+            A = rand_sparse(rs, n, 1.2 / n)
+            jobs.append({'A': A, 'fam': 'size:sparse', 'dist': n <= 100})
+    A = [[int(i != j) for j in range(257)] for i in range(257)]                      # K257 minus a few edges: degrees 254..256
+    for _ in range(3):
+        i, j = [int(x) for x in rs.choice(256, size=2, replace=False)]
+        A[i][j] = A[j][i] = 0
+    jobs.append({'A': A, 'fam': 'size:dense-degree-256', 'dist': False, 'nolean': True})
+    A = [[int(i != j and ((i < 130) == (j < 130))) for j in range(150)] for i in range(150)]   # two cliques (130 + 20), 2 components
+    jobs.append({'A': A, 'fam': 'size:dense', 'dist': False})
     # representation axis: a fraction of all cases again with the same values in another storage (dtype / layout)
     extra = []
     for q, j in enumerate(jobs):
-        if rs.rand() > (.3 if th else .12):
+        if rs.rand() > (.3 if th else .12) or j.get('encode') or len(j['A']) > 130:
             continue
         ok_reps = [r_ for r_ in REPS if rep_ok(j['A'], r_)]
         e = dict(j); e['rep'] = ok_reps[int(rs.randint(len(ok_reps)))]; e['fam'] = 'rep:' + e['rep']
@@ -405,6 +483,21 @@ def gen_jobs(rs, tier):
     jobs += extra
     jobs += gen_probes(rs, 800 if th else 120)
     return jobs
+
+
+
+def run_driver_par(main, lines, k=8):
+    """common.run_driver on k interleaved chunks in parallel (the driver is single-threaded; large-n lines dominate)"""
+    from concurrent.futures import ThreadPoolExecutor
+    if len(lines) < 4 * k:
+        return run_driver(main, lines)
+    chunks = [lines[i::k] for i in range(k)]
+    with ThreadPoolExecutor(k) as ex:
+        outs = list(ex.map(lambda c: run_driver(main, c), chunks))
+    res = [None] * len(lines)
+    for i, o in enumerate(outs):
+        res[i::k] = o
+    return res
 
 
 def main():
@@ -438,7 +531,7 @@ def main():
         for s, c in r['status'].items():
             ck.count('status:' + s, c)
         ck.merge_counts(evaluations=r['evals'], keys=[r['nontrivial']] if r['nontrivial'] else [], dist=r['dist'],
-                        samples=[{'A': job['A']}] if r['nontrivial'] and r['n'] >= 5 else [])
+                        samples=[{'A': job['A']}] if r['nontrivial'] and 5 <= r['n'] <= 14 and not job.get('encode') else [])
         for func, pred, detail, cond in r['viol']:
             ck.violation(func, pred, detail, cond)
         for t in r['timeouts']:
@@ -450,7 +543,7 @@ def main():
             lines.append(ln); exps.append(ex); funcs.append(fn)
     if ok:
         try:
-            outs = run_driver('Comp', lines)
+            outs = run_driver_par('Comp', lines)
             nd = 0
             for ln, o, ex, fn in zip(lines, outs, exps, funcs):
                 if o != ex:
